@@ -83,13 +83,12 @@ cb!(skip_res_unit -> Result<(), u8>, |sel, len, lex| if sel < 3 { Ok(()) } else 
 cb!(skip_res_skip -> Result<Skip, u8>, |sel, len, lex| if sel < 3 { Ok(Skip) } else { Err(sel) });
 
 /// bump one more character when there is one: the bumped bytes belong to the current item
-pub fn val_bump<'s, T>(lex: &mut Lexer<'s, T>) -> u32
+pub fn bump1<'s, T>(lex: &mut Lexer<'s, T>)
 where
     T: Logos<'s>,
     T::Source: Bytes,
     <T::Source as logos::Source>::Slice<'s>: Bytes,
 {
-    let (_sel, len) = note(lex);
     let rem = lex.remainder();
     let rb = rem.bytes_of();
     if !rb.is_empty() {
@@ -99,8 +98,37 @@ where
         }
         lex.bump(n);
     }
+}
+
+pub fn val_bump<'s, T>(lex: &mut Lexer<'s, T>) -> u32
+where
+    T: Logos<'s>,
+    T::Source: Bytes,
+    <T::Source as logos::Source>::Slice<'s>: Bytes,
+{
+    let (_sel, len) = note(lex);
+    bump1(lex);
     len
 }
+
+// bump, THEN decide: the bumped bytes belong to the item whatever the decision is
+cb!(bump_skip -> Skip, |sel, len, lex| {
+    bump1(lex);
+    Skip
+});
+cb!(bump_bool -> bool, |sel, len, lex| {
+    bump1(lex);
+    sel % 2 == 0
+});
+cb!(bump_res -> Result<u32, u8>, |sel, len, lex| {
+    bump1(lex);
+    if sel < 2 { Ok(len) } else { Err(sel) }
+});
+cb!(bump_filter -> Filter<()>, |sel, len, lex| {
+    bump1(lex);
+    if sel % 2 == 0 { Filter::Emit(()) } else { Filter::Skip }
+});
+cb!(skipcb_bump -> (), |sel, len, lex| bump1(lex));
 
 /// Callbacks that merely happen to be called `skip` (like `logos::skip`), `emit`, `filter`: a user's function is
 /// called whatever its name is.
